@@ -30,6 +30,7 @@ import (
 	"log/slog"
 	"os"
 	"path/filepath"
+	"runtime/debug"
 	"sort"
 	"strings"
 
@@ -168,16 +169,19 @@ type Gen struct {
 }
 
 type World struct {
-	Plus           bool     `json:"plus"`
-	Wildcard       bool     `json:"wildcard"`
-	InternalRoutes bool     `json:"internal_routes,omitempty"` // controller flag -enable-internal-routes
-	Class          string   `json:"class"`
-	Policies       []PolIn  `json:"policies"`
-	Secrets        []SecIn  `json:"secrets"`
-	AP             []APIn   `json:"ap"`
-	Bundles        []string `json:"bundles"`
-	VS             *VSIn    `json:"vs,omitempty"`
-	Ing            *IngIn   `json:"ing,omitempty"`
+	Plus           bool `json:"plus"`
+	Wildcard       bool `json:"wildcard"`
+	InternalRoutes bool `json:"internal_routes,omitempty"` // controller flag -enable-internal-routes
+	// Special (history cases): the TLS Secret default/tls-x the resource names is ALSO a special secret of the
+	// controller: "wildcard" (-wildcard-tls-secret) or "default-server" (-default-server-tls-secret)
+	Special  string   `json:"special,omitempty"`
+	Class    string   `json:"class"`
+	Policies []PolIn  `json:"policies"`
+	Secrets  []SecIn  `json:"secrets"`
+	AP       []APIn   `json:"ap"`
+	Bundles  []string `json:"bundles"`
+	VS       *VSIn    `json:"vs,omitempty"`
+	Ing      *IngIn   `json:"ing,omitempty"`
 }
 
 // ---------------------------------------------------------------- case (observed part)
@@ -1630,6 +1634,23 @@ func histCases(root *vh.Rng) []Case {
 				}
 			}
 		}
+		// the TLS Secret the host names is also a special secret of the controller
+		for _, special := range []string{"wildcard", "default-server"} {
+			for _, op := range secretOps("tls") {
+				vw := vstlsWorld("ok", plus, false)
+				vw.Special, vw.Wildcard = special, special == "wildcard"
+				add("vs", Gen{Kind: "tls", Scope: "server", Mode: op, Pos: "history-special-" + special}, vw, EventIn{Dep: "secret", NS: ns, Name: "tls-x", Op: op})
+				for _, master := range []bool{false, true} {
+					sc := "regular"
+					if master {
+						sc = "master"
+					}
+					wd, _ := ingWorld(ingGen{Master: master, Plus: plus, TLSMode: "ok"})
+					wd.Special, wd.Wildcard = special, special == "wildcard"
+					add("ing", Gen{Kind: "tls", Scope: sc, Mode: op, Pos: "history-special-" + special}, wd, EventIn{Dep: "secret", NS: ns, Name: "tls-x", Op: op})
+				}
+			}
+		}
 		for _, auth := range []string{"jwt", "basic"} {
 			if !plus && auth == "jwt" {
 				continue
@@ -1654,10 +1675,28 @@ func histCases(root *vh.Rng) []Case {
 	return out
 }
 
+// panicSite names the innermost frames of /repo code on the panicking stack (function names only).
+func panicSite() string {
+	var out []string
+	for _, l := range strings.Split(string(debug.Stack()), "\n") {
+		if strings.HasPrefix(l, "github.com/nginx/kubernetes-ingress/internal/") && !strings.Contains(l, "verifh") {
+			f := strings.TrimPrefix(l, "github.com/nginx/kubernetes-ingress/internal/")
+			if i := strings.LastIndex(f, "("); i > 0 {
+				f = f[:i]
+			}
+			out = append(out, f)
+			if len(out) == 4 {
+				break
+			}
+		}
+	}
+	return strings.Join(out, " < ")
+}
+
 func runHist(c *Case) (obs Obs) {
 	defer func() {
 		if p := recover(); p != nil {
-			obs.Panic = fmt.Sprint(p)
+			obs.Panic = fmt.Sprint(p) + " @ " + panicSite()
 		}
 	}()
 	init := copyWorld(*c.Init)
@@ -1666,7 +1705,14 @@ func runHist(c *Case) (obs Obs) {
 		obs.Error = "templates: " + err.Error()
 		return
 	}
-	ctl := k8s.NewVerifC08Ctl(k8s.VerifC08Opts{IsPlus: init.Plus, EnableOIDC: init.Plus, AppProtect: init.Plus, IngressClass: init.Class, Configurator: cnf}, init.InternalRoutes)
+	opts := k8s.VerifC08Opts{IsPlus: init.Plus, EnableOIDC: init.Plus, AppProtect: init.Plus, IngressClass: init.Class, Configurator: cnf}
+	switch init.Special {
+	case "wildcard":
+		opts.WildcardTLSSecret = ns + "/tls-x"
+	case "default-server":
+		opts.DefaultServerSecret = ns + "/tls-x"
+	}
+	ctl := k8s.NewVerifC08Ctl(opts, init.InternalRoutes)
 	apply := func(kind, key string, obj interface{}) int {
 		n, err := ctl.Apply(kind, key, obj)
 		if err != nil && obs.Error == "" {
